@@ -7,6 +7,10 @@ HOOK_COMMITS = subprocess.run(["git", "-C", "/repo", "log", "--format=%h %s", "-
 
 # id -> (technique, level text, level note, design ref)
 CLAIMED = {
+ "C16": ("model-based property testing of the handshake: generated client options x a scripted server (happy path with spliced-in deviations, faults and stream cuts); oracle = reference model of the handshake state machine giving the exact client frames and the result",
+         "Exploration: for every generated server behaviour the client must write exactly the model's frames with the right contents and return Ok only after OpenOk (then usable, exposing Start's server properties), otherwise the specific error; a timeout error may not come early.",
+         "Where the property text leaves two readings open (silence, socket error or malformed data while waiting for the reply to StartOk) both InvalidCredentials and the specific error are accepted. Timeouts use the real clock (40-240 ms); lateness beyond 1.5 s is inconclusive, never a violation. Frames glued after OpenOk are not generated.",
+         "DESIGN.md 4/C16"),
  "C04": ("property-based testing with a reply-reordering broker: generated per-channel call programs on concurrent client threads, replies (unique values per channel and sequence number) held and released in a generated cross-channel order; oracle = expectation table shared with C12",
          "Exploration: every call must return exactly the values of the reply generated for its channel and sequence number, however replies are delayed, reordered and glued; nowait variants return without a reply; the wire per channel equals the expected frames.",
          "Client threads are scheduled by the OS (sampled); the broker owns reply order and timing. At most one outstanding call per channel is a type-system fact.",
